@@ -166,6 +166,7 @@ func cmdCodec(args []string) {
 	const per = 256
 	recs, batches := 0, 0
 	var samples []string
+	curName := ""
 	writeBatch := func(tr *Trace, ty string, w int, fields string, ins, encs, decs [][]byte) {
 		for off := 0; off < len(ins); off += per {
 			end := min(off+per, len(ins))
@@ -176,6 +177,7 @@ func cmdCodec(args []string) {
 			}
 			tr.fStr("ty", ty)
 			tr.fInt("w", w)
+			tr.fStr("name", curName) // the Go key type (uint, int ... share ty/w with uint64, int64)
 			if fields != "" {
 				tr.buf = append(tr.buf, `,"fields":`...)
 				tr.buf = append(tr.buf, fields...)
@@ -199,6 +201,7 @@ func cmdCodec(args []string) {
 	}
 	bi := 0
 	for _, t := range codecTypes() {
+		curName = t.name
 		ps := patternsFor(t, r, *nrand, *ex16)
 		sort.SliceStable(ps, func(i, j int) bool { return t.cmp(ps[i], ps[j]) < 0 })
 		// cut into independent batches so that files can be validated in parallel
@@ -215,6 +218,7 @@ func cmdCodec(args []string) {
 					tr.start("panic")
 					tr.fStr("ty", t.ty)
 					tr.fInt("w", t.w)
+					tr.fStr("name", t.name)
 					tr.fBytes("in", be(p, t.w))
 					tr.fStr("msg", msg)
 					tr.emit()
@@ -244,6 +248,7 @@ func cmdCodec(args []string) {
 		}
 	}
 	// tuples: concatenations of the numeric encodings
+	curName = "tuple"
 	for s := 0; s < *tuples; s++ {
 		var sc Schema
 		n := 2 + r.Intn(3)
@@ -338,6 +343,7 @@ func cmdCodecRerun(args []string) {
 			Op     string `json:"op"`
 			Ty     string `json:"ty"`
 			W      int    `json:"w"`
+			Name   string `json:"name"`
 			Fields []struct {
 				Ty string `json:"ty"`
 				W  int    `json:"w"`
@@ -358,7 +364,7 @@ func cmdCodecRerun(args []string) {
 			}
 			msg := guard(func() {
 				for _, t := range types {
-					if t.ty == e.Ty && t.w == e.W {
+					if t.ty == e.Ty && t.w == e.W && (e.Name == "" || t.name == e.Name) {
 						t.dec(t.enc(pattern(inb, e.W)))
 					}
 				}
@@ -375,6 +381,11 @@ func cmdCodecRerun(args []string) {
 		}
 		pick := func(ty string, w int) codecType {
 			for _, t := range types {
+				if e.Ty != "tuple" && e.Name != "" && t.name == e.Name {
+					return t
+				}
+			}
+			for _, t := range types {
 				if t.ty == ty && t.w == w && t.name != "uint" && t.name != "int" {
 					return t
 				}
@@ -385,6 +396,7 @@ func cmdCodecRerun(args []string) {
 		tr.start(e.Op)
 		tr.fStr("ty", e.Ty)
 		tr.fInt("w", e.W)
+		tr.fStr("name", e.Name)
 		if e.Ty == "tuple" {
 			fb, _ := json.Marshal(e.Fields)
 			tr.buf = append(tr.buf, `,"fields":`...)
